@@ -13,6 +13,7 @@
 #include <yaclib/async/when_any.hpp>
 #include <yaclib/coro/await.hpp>
 #include <yaclib/coro/future.hpp>
+#include <yaclib/coro/on.hpp>
 #include <yaclib/coro/mutex.hpp>
 #include <yaclib/coro/shared_mutex.hpp>
 #include <yaclib/exe/inline.hpp>
@@ -387,6 +388,71 @@ void CoSharedMutex(int iters) {
   if (data != iters) std::abort();
 }
 
+// --- coroutines awaiting one SharedFuture from several threads while other threads subscribe and the producer fulfils:
+// the awaited value must be visible after resumption, and nothing but the atomics may be shared (before /repo 8ca0444 the
+// resumed coroutine swapped executors with the shared core while SetCallback read that field: D12)
+yaclib::Future<int> CoAwaitShared(yaclib::SharedFuture<Payload> sf, yaclib::IExecutor& e) {
+  co_await On(e);
+  co_await Await(sf);
+  const auto& r = sf.Touch();
+  int sum = 0;
+  for (int x : r.Value()) sum += x;
+  co_return sum;
+}
+
+yaclib::Future<int> CoAwaitUnique(yaclib::Future<Payload> f) {
+  auto v = co_await std::move(f);
+  int sum = 0;
+  for (int x : v) sum += x;
+  co_return sum;
+}
+
+void CoAwait(int iters) {
+  yaclib::FairThreadPool tp1{2};
+  yaclib::FairThreadPool tp2{2};
+  for (int i = 0; i < iters; ++i) {
+    auto [sf, sp] = yaclib::MakeSharedContract<Payload>();
+    auto [uf, up] = yaclib::MakeContract<Payload>();
+    std::atomic<int> go{0};
+    int got[4] = {0, 0, 0, 0};
+    std::vector<std::thread> ts;
+    for (int t = 0; t < 2; ++t) {
+      ts.emplace_back([&, t, sf = sf] {
+        while (go.load(std::memory_order_acquire) == 0) {}
+        auto f = CoAwaitShared(sf, t == 0 ? static_cast<yaclib::IExecutor&>(tp1) : tp2);
+        got[t] = std::move(f).Get().Ok();
+      });
+    }
+    ts.emplace_back([&, sf = sf] {
+      while (go.load(std::memory_order_acquire) == 0) {}
+      // attached without an executor: the step inherits the shared core's executor — some of these land while the
+      // producer is still walking the list and resuming the coroutines
+      int n = 0;
+      for (int k = 0; k < 6; ++k) {
+        auto f = sf.ThenInline([](const Payload& p) { return static_cast<int>(p.size()); });
+        n = std::move(f).Get().Ok();
+        Spin(8);
+      }
+      got[2] = n;
+    });
+    ts.emplace_back([&, uf = std::move(uf)]() mutable {
+      while (go.load(std::memory_order_acquire) == 0) {}
+      auto f = CoAwaitUnique(std::move(uf));
+      got[3] = std::move(f).Get().Ok();
+    });
+    go.store(1, std::memory_order_release);
+    Spin(static_cast<unsigned>(i % 64));
+    std::move(sp).Set(Payload{1, 2, 3});
+    std::move(up).Set(Payload{4, 5});
+    for (auto& t : ts) t.join();
+    if (got[0] != 6 || got[1] != 6 || got[2] != 3 || got[3] != 9) std::abort();
+  }
+  tp1.Stop();
+  tp1.Wait();
+  tp2.Stop();
+  tp2.Wait();
+}
+
 }  // namespace
 
 int main(int argc, char** argv) {
@@ -399,7 +465,7 @@ int main(int argc, char** argv) {
                    {"when_any", WhenAnyFirst},                    {"pool_pipeline", PoolPipeline},
                    {"handoff_race", HandOffRace},                 {"strand_inline", StrandInline},
                    {"strand_spawn", StrandSpawn},                 {"comutex", CoMutex},
-                   {"cosharedmutex", CoSharedMutex}};
+                   {"cosharedmutex", CoSharedMutex},         {"coawait", CoAwait}};
   bool ran = false;
   for (auto& s : all) {
     if (sc == "all" || sc == s.name) {
